@@ -10,8 +10,9 @@
    ( a (b)  is the product,  a(b)  the call ).  Keywords and text operators neither receive nor cause a product.
 
    A directive [cdir] per token says: [d_omit] - write nothing for this token (allowed for the operator token  *  only);
-   [d_blank] - write one blank behind the lexeme.  Missing directives mean "written, blank behind": [crender_toks ts []]
-   is the canonical text of Syn/RenderText.v.
+   [d_sep] - the separator run written behind the lexeme: any list of blanks, tabs, CR, LF, line comments and block
+   comments (Lex/Tok.sep; [] = the next lexeme follows directly).  Missing directives mean "written, one blank behind":
+   [crender_toks ts []] is the canonical text of Syn/RenderText.v.
 
    [cok tc lt lb pend ts ds] walks the tokens with the scanner's bookkeeping (lastTokenType lt, lastWasBlank lb, pend =
    a  *  has been left out and is owed by the next lexeme) and demands
@@ -19,9 +20,12 @@
      - a written token is spellable (Syn/RenderText.spell_tok), and the scanner inserts  *  in front of it EXACTLY when
        one is owed ([ins_before]): omission only where the comfort rule re-inserts the sign, and no written pair of
        lexemes where the rule would insert a sign that the token stream does not have ( f (x)  as a call,  (f)(x) ,  2 (x) );
-     - a lexeme without a blank behind it ends where the scanner stops ([tight_ok]): a word / number in front of a rune
+     - the separators are well formed (comments only where the configuration allows them, none running to the end of
+       the input) and an operator forms no comment opener with what follows ( / in front of a comment );
+     - a lexeme with nothing behind it ends where the scanner stops ([tight_ok]): a word / number in front of a rune
        its matcher rejects, an operator in front of a rune that neither extends it in the operator trie nor opens a
        comment, punctuation, strings and quoted identifiers anywhere.
+   Separators keep lastTokenType and set lastWasBlank:  a /* c */ (b)  and  a LF (b)  are products like  a (b) .
    Under [cok] the text is a well-formed layout (Lex/TokProofs.wf_layout) whose lexemes denote the canonical tokens - the
    lexeme behind an omitted  *  denotes the two tokens  * t  - so text -> tokens -> AST follows from text_to_ast. *)
 From P2 Require Import Base.Prelude Base.PreludeProofs Lex.Token Syn.Ast Syn.Parse Syn.Render Syn.Full Syn.FullProofs
@@ -30,8 +34,8 @@ From P2 Require Lex.Tok Lex.TokProofs.
 Local Open Scope N_scope.
 
 (* ------------------------------------------------------------------ the text *)
-Record cdir := mkDir { d_omit : bool; d_blank : bool }.
-Definition dflt : cdir := mkDir false true.
+Record cdir := mkDir { d_omit : bool; d_sep : list T.sep }.
+Definition dflt : cdir := mkDir false [T.SBlank].
 
 Definition star_tk : tk := (tOperate, [42]).
 Definition is_star (t : tk) : bool := ttype_eqb (fst t) tOperate && str_eqb (snd t) [42].
@@ -41,7 +45,7 @@ Fixpoint crender_toks (ts : list tk) (ds : list cdir) : list N :=
   | [] => []
   | t :: ts' =>
       let d := hd dflt ds in
-      (if d_omit d then [] else tok_text t ++ (if d_blank d then [32] else [])) ++ crender_toks ts' (tl ds)
+      (if d_omit d then [] else tok_text t ++ T.seps_text (d_sep d)) ++ crender_toks ts' (tl ds)
   end.
 
 Definition render_comfort (pc : pcfg) (r : ft) (ds : list cdir) : list N := crender_toks (fflatten pc r) ds.
@@ -89,6 +93,16 @@ Definition tight_ok (tc : T.tcfg) (t : tk) (rest : list N) : bool :=
   | _ => true
   end.
 
+(* what may follow the lexeme of t: the separator run l, then rest *)
+Definition follow_ok (tc : T.tcfg) (t : tk) (l : list T.sep) (rest : list N) : bool :=
+  match l with
+  | [] => tight_ok tc t rest
+  | _ => match fst t with
+         | tOperate => TP.noopen (T.c_comments tc) (snd t) (T.seps_text l ++ rest)
+         | _ => true
+         end
+  end.
+
 (* ------------------------------------------------------------------ the decidable condition *)
 Fixpoint cok (tc : T.tcfg) (lt : ttype) (lb pend : bool) (ts : list tk) (ds : list cdir) : bool :=
   match ts with
@@ -97,13 +111,14 @@ Fixpoint cok (tc : T.tcfg) (lt : ttype) (lb pend : bool) (ts : list tk) (ds : li
       let d := hd dflt ds in
       if d_omit d then is_star t && negb pend && cok tc lt lb true ts' (tl ds)
       else spell_tok tc t && Bool.eqb (ins_before lt lb t) pend
-           && (d_blank d || tight_ok tc t (crender_toks ts' (tl ds)))
-           && cok tc (lt_after tc t) (d_blank d) false ts' (tl ds)
+           && TP.seps_ok (T.c_comments tc) (d_sep d) && follow_ok tc t (d_sep d) (crender_toks ts' (tl ds))
+           && cok tc (lt_after tc t) (negb (TP.is_nil (d_sep d))) false ts' (tl ds)
   end.
 
-(* the configuration: as Syn/RenderText.cfg_spell, but comfort mode may be on *)
+(* the configuration: as Syn/RenderText.cfg_spell, but comfort mode may be on; blank, tab, CR, LF are neither letters nor digits *)
 Definition cfg_spell_c (tc : T.tcfg) : bool :=
-  forallb (fun b => freeb b (T.c_ops tc)) [0; 32; 9; 13; 10] && negb (T.c_letter tc 32) && negb (T.c_number tc 32).
+  forallb (fun b => freeb b (T.c_ops tc)) [0; 32; 9; 13; 10]
+  && forallb (fun b => negb (T.c_letter tc b) && negb (T.c_number tc b)) [32; 9; 13; 10].
 
 Definition cspellable_toks (tc : T.tcfg) (ts : list tk) (ds : list cdir) : bool :=
   cfg_spell_c tc && cok tc tInvalid false false ts ds.
@@ -117,7 +132,7 @@ Fixpoint omit_all (tc : T.tcfg) (lt : ttype) (ts : list tk) : list cdir :=
   | [] => []
   | t :: ts' =>
       match ts' with
-      | n :: _ => if is_star t && ins_before lt true n then mkDir true true :: omit_all tc lt ts'
+      | n :: _ => if is_star t && ins_before lt true n then mkDir true [] :: omit_all tc lt ts'
                   else dflt :: omit_all tc (lt_after tc t) ts'
       | [] => [dflt]
       end
@@ -130,16 +145,15 @@ Fixpoint clayout (pend : bool) (ts : list tk) (ds : list cdir) : list T.item :=
   | t :: ts' =>
       let d := hd dflt ds in
       if d_omit d then clayout true ts' (tl ds)
-      else T.ILex (tok_text t) ((if pend then [star_tk] else []) ++ [t])
-           :: (if d_blank d then [T.ISep [T.SBlank]] else []) ++ clayout false ts' (tl ds)
+      else T.ILex (tok_text t) ((if pend then [star_tk] else []) ++ [t]) :: T.ISep (d_sep d) :: clayout false ts' (tl ds)
   end.
 
 Lemma clayout_text : forall ts pend ds, T.layout_text (clayout pend ts ds) = crender_toks ts ds.
 Proof.
   induction ts as [|t ts IH]; intros pend ds; [reflexivity|].
   cbn [clayout crender_toks]. destruct (d_omit (hd dflt ds)); [apply IH|].
-  unfold T.layout_text. cbn [flat_map T.item_text]. rewrite flat_map_app. fold (T.layout_text (clayout false ts (tl ds))).
-  rewrite IH. rewrite <- app_assoc. f_equal. f_equal. destruct (d_blank (hd dflt ds)); reflexivity.
+  unfold T.layout_text. cbn [flat_map T.item_text]. fold (T.layout_text (clayout false ts (tl ds))).
+  rewrite IH. rewrite <- app_assoc. reflexivity.
 Qed.
 
 Lemma is_star_eq : forall t, is_star t = true -> t = star_tk.
@@ -160,30 +174,29 @@ Proof.
     + apply andb_true_iff in H. destruct H as [H Hr]. apply andb_true_iff in H. destruct H as [Hs Hp].
       apply negb_true_iff in Hp. subst pend. rewrite (IH _ _ _ _ Hr). rewrite (is_star_eq t Hs). reflexivity.
     + apply andb_true_iff in H. destruct H as [_ Hr].
-      change (TP.lexeme_tokens (T.ILex (tok_text t) ((if pend then [star_tk] else []) ++ [t]) :: ?x))
+      change (TP.lexeme_tokens (T.ILex (tok_text t) ((if pend then [star_tk] else []) ++ [t]) :: T.ISep ?l :: ?x))
         with (((if pend then [star_tk] else []) ++ [t]) ++ TP.lexeme_tokens x).
-      rewrite lexeme_tokens_app, (IH _ _ _ _ Hr).
-      destruct (d_blank (hd dflt ds)); destruct pend; reflexivity.
+      rewrite (IH _ _ _ _ Hr). destruct pend; reflexivity.
 Qed.
 
 (* ------------------------------------------------------------------ what the configuration condition gives *)
 Record cfacts (tc : T.tcfg) : Prop := mkCFacts {
   cc_ok : TP.ops_ok tc;
   cc_clean : TP.ops_clean tc;
-  cc_letter : T.c_letter tc 32 = false;
-  cc_number : T.c_number tc 32 = false }.
+  cc_ln : forall b, In b [32; 9; 13; 10] -> T.c_letter tc b = false /\ T.c_number tc b = false }.
 
 Lemma cfg_spell_c_facts : forall tc, cfg_spell_c tc = true -> cfacts tc.
 Proof.
   intros tc H. unfold cfg_spell_c in H.
-  apply andb_true_iff in H. destruct H as [H Hn]. apply andb_true_iff in H. destruct H as [Hf Hl].
-  apply negb_true_iff in Hl, Hn.
+  apply andb_true_iff in H. destruct H as [Hf Hln].
   cbn [forallb] in Hf.
   apply andb_true_iff in Hf. destruct Hf as [F0 Hf]. apply andb_true_iff in Hf. destruct Hf as [F32 Hf].
   apply andb_true_iff in Hf. destruct Hf as [F9 Hf]. apply andb_true_iff in Hf. destruct Hf as [F13 Hf].
   apply andb_true_iff in Hf. destruct Hf as [F10 _].
   apply freeb_free in F0, F32, F9, F13, F10.
-  constructor; try assumption. repeat split; assumption.
+  constructor; [assumption|repeat split; assumption|].
+  intros b Hb. rewrite forallb_forall in Hln. specialize (Hln b Hb). apply andb_true_iff in Hln. destruct Hln as [Hl Hn].
+  apply negb_true_iff in Hl, Hn. split; assumption.
 Qed.
 
 Lemma stops_noopen_rune : forall tc valid p c r, TP.opener (T.c_comments tc) c r = false ->
@@ -198,16 +211,40 @@ Proof.
   apply stops_noopen_rune; assumption.
 Qed.
 
-Lemma cstops_ident_blank : forall tc p r, cfacts tc -> TP.stops tc (T.ident_valid tc) p (32 :: r).
+Lemma ident_rejects_blanks : forall tc p, cfacts tc -> TP.rejects_blanks (T.ident_valid tc) p.
 Proof.
-  intros tc p r F. apply TP.stops_rune; [discriminate|].
-  change (T.alias 32) with 32. unfold T.ident_valid. rewrite (cc_letter tc F), (cc_number tc F). reflexivity.
+  intros tc p F. unfold TP.rejects_blanks, T.ident_valid.
+  destruct (cc_ln tc F 32) as [L1 N1]; [cbn; tauto|]. destruct (cc_ln tc F 9) as [L2 N2]; [cbn; tauto|].
+  destruct (cc_ln tc F 13) as [L3 N3]; [cbn; tauto|]. destruct (cc_ln tc F 10) as [L4 N4]; [cbn; tauto|].
+  rewrite L1, N1, L2, N2, L3, N3, L4, N4. repeat split; reflexivity.
 Qed.
 
-Lemma cstops_number_blank : forall tc p r, cfacts tc -> TP.stops tc (T.number_valid tc) p (32 :: r).
+Lemma number_rejects_blanks : forall tc p, cfacts tc -> TP.rejects_blanks (T.number_valid tc) p.
 Proof.
-  intros tc p r F. apply TP.stops_rune; [discriminate|].
-  change (T.alias 32) with 32. unfold T.number_valid. rewrite (cc_number tc F). cbn. rewrite !andb_false_r. reflexivity.
+  intros tc p F. unfold TP.rejects_blanks, T.number_valid.
+  destruct (cc_ln tc F 32) as [_ N1]; [cbn; tauto|]. destruct (cc_ln tc F 9) as [_ N2]; [cbn; tauto|].
+  destruct (cc_ln tc F 13) as [_ N3]; [cbn; tauto|]. destruct (cc_ln tc F 10) as [_ N4]; [cbn; tauto|].
+  rewrite N1, N2, N3, N4. cbn. rewrite !andb_false_r. repeat split; reflexivity.
+Qed.
+
+Lemma seps_text_cons : forall x l r, T.seps_text (x :: l) ++ r = T.sep_text x ++ (T.seps_text l ++ r).
+Proof. intros x l r. unfold T.seps_text. cbn [flat_map]. rewrite <- app_assoc. reflexivity. Qed.
+
+Lemma seps_ok_cons : forall cm x l, TP.seps_ok cm (x :: l) = true ->
+  T.sep_ok cm x = true /\ T.sep_final x = false /\ TP.seps_ok cm l = true.
+Proof.
+  intros cm x l H. unfold TP.seps_ok in *. cbn [forallb] in H. apply andb_true_iff in H. destruct H as [H Hl].
+  apply andb_true_iff in H. destruct H as [Ho Hf]. apply negb_true_iff in Hf. auto.
+Qed.
+
+(* a scan with a matcher that rejects blanks stops in front of a well-formed separator run or where scan_stops says *)
+Lemma scan_follow : forall tc valid s l r, TP.rejects_blanks valid (lastc s) ->
+  TP.seps_ok (T.c_comments tc) l = true -> (l = [] -> scan_stops tc valid s r = true) ->
+  TP.stops tc valid (lastc s) (T.seps_text l ++ r).
+Proof.
+  intros tc valid s [|x l] r RB Hs Ht.
+  - cbn [T.seps_text flat_map app]. apply scan_stops_sound. apply Ht. reflexivity.
+  - destruct (seps_ok_cons _ x l Hs) as (Ho & Hf & _). rewrite seps_text_cons. apply TP.stops_sep; assumption.
 Qed.
 
 (* a word in any scanner state: keyword, or identifier preceded by the owed  *  *)
@@ -239,46 +276,46 @@ Qed.
    comfort rule inserts one; it may be followed by a blank, or directly by any text tight_ok admits *)
 Lemma cspell_tok_lexeme : forall tc t lt lb, cfacts tc -> spell_tok tc t = true ->
   exists C, TP.lexeme_at tc lt lb (tok_text t) ((if ins_before lt lb t then [star_tk] else []) ++ [t]) (lt_after tc t) C
-            /\ (forall r, C (32 :: r)) /\ (forall r, tight_ok tc t r = true -> C r).
+            /\ (forall l r, TP.seps_ok (T.c_comments tc) l = true -> follow_ok tc t l r = true -> C (T.seps_text l ++ r)).
 Proof.
   intros tc [ty s] lt lb F H. unfold spell_tok in H. apply andb_true_iff in H. destruct H as [_ H].
   pose proof (cc_ok tc F) as Ho.
-  unfold tok_text, ins_before, lt_after, tight_ok, star_tk. cbn [fst snd] in *. destruct ty; try discriminate.
+  unfold tok_text, ins_before, lt_after, follow_ok, tight_ok, star_tk. cbn [fst snd] in *. destruct ty; try discriminate.
   - (* identifier *)
     destruct (ascii_word s) eqn:Ea.
     + apply andb_true_iff in H. destruct H as [Hw Hk]. apply negb_true_iff in Hk.
       pose proof (cword_lexeme tc lt lb s F Hw) as L. rewrite Hk in L.
-      eexists. split; [exact L|]. split; [intro r; apply cstops_ident_blank; exact F|].
-      intros r Hr. apply scan_stops_sound. exact Hr.
+      eexists. split; [exact L|]. intros l r Hs Hr.
+      apply scan_follow; [apply ident_rejects_blanks; exact F|exact Hs|intro E; subst l; exact Hr].
     + apply andb_true_iff in H. destruct H as [H0 H39].
       apply not_in_of_existsb in H0. apply not_in_of_existsb in H39.
-      exists TP.anything. split; [exact (TP.lexeme_quoted tc lt lb s Ho H0 H39)|]. split; intros; exact I.
+      exists TP.anything. split; [exact (TP.lexeme_quoted tc lt lb s Ho H0 H39)|]. intros; exact I.
   - (* keyword *)
     apply andb_true_iff in H. destruct H as [Hw Hk].
     pose proof (cword_lexeme tc lt lb s F Hw) as L. rewrite Hk in L.
-    eexists. split; [exact L|]. split; [intro r; apply cstops_ident_blank; exact F|].
-    intros r Hr. apply scan_stops_sound. exact Hr.
+    eexists. split; [exact L|]. intros l r Hs Hr.
+    apply scan_follow; [apply ident_rejects_blanks; exact F|exact Hs|intro E; subst l; exact Hr].
   - (* ( *)
-    apply str_eqb_eq in H. subst s. exists TP.anything. split; [exact (TP.lexeme_open tc lt lb Ho)|]. split; intros; exact I.
+    apply str_eqb_eq in H. subst s. exists TP.anything. split; [exact (TP.lexeme_open tc lt lb Ho)|]. intros; exact I.
   - (* ) *)
-    apply str_eqb_eq in H. subst s. exists TP.anything. split; [exact (TP.lexeme_close tc lt lb Ho)|]. split; intros; exact I.
-  - exists TP.anything. split; [apply cpunct_lexeme; assumption|]. split; intros; exact I.
-  - exists TP.anything. split; [apply cpunct_lexeme; assumption|]. split; intros; exact I.
-  - exists TP.anything. split; [apply cpunct_lexeme; assumption|]. split; intros; exact I.
-  - exists TP.anything. split; [apply cpunct_lexeme; assumption|]. split; intros; exact I.
-  - exists TP.anything. split; [apply cpunct_lexeme; assumption|]. split; intros; exact I.
-  - exists TP.anything. split; [apply cpunct_lexeme; assumption|]. split; intros; exact I.
-  - exists TP.anything. split; [apply cpunct_lexeme; assumption|]. split; intros; exact I.
-  - exists TP.anything. split; [apply cpunct_lexeme; assumption|]. split; intros; exact I.
+    apply str_eqb_eq in H. subst s. exists TP.anything. split; [exact (TP.lexeme_close tc lt lb Ho)|]. intros; exact I.
+  - exists TP.anything. split; [apply cpunct_lexeme; assumption|]. intros; exact I.
+  - exists TP.anything. split; [apply cpunct_lexeme; assumption|]. intros; exact I.
+  - exists TP.anything. split; [apply cpunct_lexeme; assumption|]. intros; exact I.
+  - exists TP.anything. split; [apply cpunct_lexeme; assumption|]. intros; exact I.
+  - exists TP.anything. split; [apply cpunct_lexeme; assumption|]. intros; exact I.
+  - exists TP.anything. split; [apply cpunct_lexeme; assumption|]. intros; exact I.
+  - exists TP.anything. split; [apply cpunct_lexeme; assumption|]. intros; exact I.
+  - exists TP.anything. split; [apply cpunct_lexeme; assumption|]. intros; exact I.
   - (* number *)
     destruct s as [|c w]; [discriminate|]. unfold number_ok in H.
     apply andb_true_iff in H. destruct H as [H Hc]. apply andb_true_iff in H. destruct H as [H Hnum].
     apply andb_true_iff in H. destruct H as [Hh Hp].
     pose proof (TP.lexeme_number tc lt lb c w Ho Hh Hp Hnum Hc) as L.
-    eexists. split; [exact L|]. split; [intro r; apply cstops_number_blank; exact F|].
-    intros r Hr. apply (scan_stops_sound tc (T.number_valid tc) (c :: w) r Hr).
+    eexists. split; [exact L|]. intros l r Hs Hr.
+    apply (scan_follow tc (T.number_valid tc) (c :: w) l r); [apply number_rejects_blanks; exact F|exact Hs|intro E; subst l; exact Hr].
   - (* string *)
-    apply not_in_of_existsb in H. exists TP.anything. split; [exact (TP.lexeme_string tc lt lb s Ho H)|]. split; intros; exact I.
+    apply not_in_of_existsb in H. exists TP.anything. split; [exact (TP.lexeme_string tc lt lb s Ho H)|]. intros; exact I.
   - (* operator *)
     destruct s as [|c w]; [discriminate|]. unfold operator_ok in H.
     apply andb_true_iff in H. destruct H as [H Hno]. apply andb_true_iff in H. destruct H as [H Hal].
@@ -290,13 +327,13 @@ Proof.
     assert (Hm : map T.alias (c :: w) = c :: w).
     { clear - Hal. induction (c :: w) as [|d l IH]; [reflexivity|]. cbn [forallb map] in *.
       apply andb_true_iff in Hal. destruct Hal as [Hd Hl]. apply N.eqb_eq in Hd. rewrite Hd, IH by assumption. reflexivity. }
-    rewrite Hm in L. eexists. split; [exact L|]. split.
-    + intro r. apply (TP.op_follows_sep tc (c :: w) T.SBlank r (cc_clean tc F) eq_refl eq_refl).
-      change (T.sep_text T.SBlank ++ r) with (32 :: r). rewrite noopen_head. exact Hno.
-    + intros [|a r] Hr; [discriminate|].
+    rewrite Hm in L. eexists. split; [exact L|]. intros [|x l] r Hs Hr.
+    + cbn [T.seps_text flat_map app]. destruct r as [|a r]; [discriminate|].
       apply andb_true_iff in Hr. destruct Hr as [Hr Hn]. apply andb_true_iff in Hr. destruct Hr as [Hop Hst].
       apply negb_true_iff in Hop. split; [exact Hn|]. intro ln. rewrite TP.nextf_noopen by assumption. cbn [fst].
       destruct (T.step_ops (TP.trie_walk (T.c_ops tc) (c :: w)) (T.alias a)); [reflexivity|discriminate].
+    + destruct (seps_ok_cons _ x l Hs) as (Hok & Hfin & _). rewrite seps_text_cons in *.
+      apply (TP.op_follows_sep tc (c :: w) x _ (cc_clean tc F) Hok Hfin). exact Hr.
 Qed.
 
 Lemma clayout_wf : forall tc ts lt lb pend ds, cfacts tc -> cok tc lt lb pend ts ds = true ->
@@ -306,17 +343,15 @@ Proof.
   cbn [cok clayout] in *. destruct (d_omit (hd dflt ds)).
   - apply andb_true_iff in H. destruct H as [_ Hr]. apply IH; assumption.
   - apply andb_true_iff in H. destruct H as [H Hr]. apply andb_true_iff in H. destruct H as [H Hg].
+    apply andb_true_iff in H. destruct H as [H Hse].
     apply andb_true_iff in H. destruct H as [Hs Hi]. apply Bool.eqb_prop in Hi.
-    destruct (cspell_tok_lexeme tc t lt lb F Hs) as (C & L & HB & HT). rewrite Hi in L.
+    destruct (cspell_tok_lexeme tc t lt lb F Hs) as (C & L & HT). rewrite Hi in L.
     apply (TP.wf_lex tc lt lb (tok_text t) _ (lt_after tc t) C); [exact L| | |].
     + unfold spell_tok in Hs. apply andb_true_iff in Hs. destruct Hs as [Hc _]. apply N.eqb_eq in Hc. exact Hc.
-    + destruct (d_blank (hd dflt ds)).
-      * change (T.layout_text ([T.ISep [T.SBlank]] ++ clayout false ts (tl ds)))
-          with (32 :: T.layout_text (clayout false ts (tl ds))). apply HB.
-      * cbn [app orb] in *. rewrite clayout_text. apply HT. exact Hg.
-    + destruct (d_blank (hd dflt ds)).
-      * cbn [app]. apply TP.wf_sep; [reflexivity|]. apply IH; assumption.
-      * cbn [app]. apply IH; assumption.
+    + change (T.layout_text (T.ISep (d_sep (hd dflt ds)) :: clayout false ts (tl ds)))
+        with (T.seps_text (d_sep (hd dflt ds)) ++ T.layout_text (clayout false ts (tl ds))).
+      rewrite clayout_text. apply HT; assumption.
+    + apply TP.wf_sep; [exact Hse|]. cbn [orb]. apply IH; assumption.
 Qed.
 
 (* ------------------------------------------------------------------ the theorems *)
@@ -354,7 +389,7 @@ Qed.
 (* without directives the comfort text is the canonical text *)
 Lemma crender_default : forall ts, crender_toks ts [] = render_toks ts.
 Proof.
-  induction ts as [|t ts IH]; [reflexivity|]. cbn [crender_toks hd tl d_omit d_blank dflt].
+  induction ts as [|t ts IH]; [reflexivity|]. cbn [crender_toks hd tl d_omit d_sep dflt].
   rewrite IH. unfold render_toks. cbn [flat_map]. reflexivity.
 Qed.
 
